@@ -217,6 +217,11 @@ class Dm1:
             self._notify_subscribers(sa, timestamp, parsed[0], parsed[1])
 
     def _send(self, cookie):
+        if self._ca.state != j1939.ControllerApplication.State.NORMAL:
+            # the CA holds no address (yet, or any more): nothing may be sent; send_pgn would raise inside the
+            # job thread and end it. Try again at the next cycle.
+            return True
+
         # get dm1 data
         # (the message is built in local variables: the receive thread writes a received DM1 into the attributes
         #  of this object and must not get in between)
